@@ -39,6 +39,7 @@ RULES = [
     Rule('C01.R1c', 'the byte count of every FileAndMemReader::read fits its destination', 20),
     Rule('C01.R2', 'length checks and seek targets are computed without pointer or 32-bit overflow', 6),
     Rule('C01.R3', 'sizes from >16-bit file fields are compared with the remaining source before allocating', 2),
+    Rule('C01.R3b', 'an allocation size computed as an unsigned difference cannot wrap: rest-of-file idiom (tell, seek to END, tell) or dominated by a comparison of the two operands', 2),
     Rule('C01.R4', 'the song index is clamped from both sides before subscripting the song list', 2),
     Rule('C01.R5', 'no assert / abort / throw on input-dependent conditions in loader and converter code', 3),
     Rule('C01.R6', 'loops make progress: anti-freeze counter in Tick, induction variables as wide as their bounds', 10),
@@ -94,6 +95,7 @@ def analyse(facts, tier):
     obls += r1_reader(facts)
     obls += r1c(facts)
     obls += r3(facts)
+    obls += r3b(facts)
     obls += r4(facts)
     obls += r5(facts)
     obls += r6(facts)
@@ -553,6 +555,105 @@ def r3(facts):
     return out
 
 
+def r3b(facts):
+    """allocation sizes that are unsigned differences A - B: the difference must not wrap.  Accepted: A = tell() taken after a seek to END
+    in the same block and B a local whose only definition is an earlier tell() of that block (seek clamps the cursor to the file size);
+    or a dominating comparison B <= A / A >= B (or the early-exit form).  Sites whose operands are not derived from the file inside the
+    function (the converter's own dstsize - dstrem accounting) are outside this rule."""
+    out = []
+    n = 0
+    def is_tell(e):
+        e = strip(e)
+        return e is not None and 'callee' in e and short(callee_name(e)) == 'tell'
+    for fn in facts.all_fns():
+        if fn.relfile() not in FILES or fn.tree is None:
+            continue
+        defs = last_defs(fn)
+        for b, j, st in fn.cfg.stmts():
+            for x in walk(st['s']):
+                cn = short(callee_name(x)) if ('callee' in x) else None
+                size = None
+                if cn in ('resize', 'reserve') and x.get('a') and x.get('obj') is not None:
+                    size = x['a'][0]
+                elif cn in ('malloc', 'calloc') and x.get('a'):
+                    size = x['a'][0]
+                if size is None or const_of(size) is not None:
+                    continue
+                # the subtraction that defines the size (directly, or through locals, two levels)
+                subs = []
+                def collect(e, depth):
+                    for y in walk(e):
+                        if y.get('k') == 'BinaryOperator' and y.get('op') == '-' and const_of(y.get('r')) is None and const_of(y.get('l')) is None \
+                                and not (y.get('t') or {}).get('ptr') and not ((strip(y['l']).get('t') or {}).get('ptr')):
+                            subs.append(y)
+                        if depth < 2 and y.get('k') == 'DeclRefExpr' and not y.get('parm') and y.get('id') in defs:
+                            for rhs in defs[y['id']]:
+                                if rhs is not e:
+                                    collect(rhs, depth + 1)
+                collect(size, 0)
+                for sub in subs:
+                    l, r = strip(sub['l']), strip(sub['r'])
+                    ok = None
+                    if is_tell(l) and r.get('k') == 'DeclRefExpr' and r.get('id') in defs and all(is_tell(d) for d in defs[r['id']]):
+                        # rest-of-file idiom: B = tell(); seek(0, END); A = tell() in one block, B defined before the seek
+                        blk = fn.cfg.blocks[b]['stmts']
+                        seen_def = seen_end = False
+                        bad = False
+                        for s2 in blk:
+                            for z in walk(s2['s']):
+                                if z is sub:
+                                    break
+                            if s2['s'].get('k') == 'DeclStmt' and any(v['id'] == r['id'] for v in s2['s']['decls']):
+                                seen_def = True
+                            ap = assign_parts(s2['s'])
+                            if ap and strip(ap[0]).get('id') == r['id']:
+                                seen_def = True
+                            for z in walk(s2['s']):
+                                if 'callee' in z and short(callee_name(z)) in ('seek', 'seeku'):
+                                    a = z.get('a', [])
+                                    is_end = len(a) == 2 and const_of(a[0]) == 0 and 'END' in show(a[1])
+                                    if seen_def and not seen_end and is_end:
+                                        seen_end = True
+                                    elif seen_def and not any(w is sub for w in walk(s2['s'])) and not seen_end:
+                                        bad = True
+                            if any(w is sub for w in walk(s2['s'])):
+                                break
+                        if seen_def and seen_end and not bad:
+                            ok = 'rest-of-file idiom: %s = tell(); seek(0, END); tell() - %s' % (show(r), show(r))
+                    if ok is None:
+                        # find the statement holding the subtraction to take its guard facts
+                        for b2, j2, st2 in fn.cfg.stmts():
+                            if any(w is sub for w in walk(st2['s'])):
+                                for f in guard_facts(fn, b2, st2):
+                                    if f[0] != 'cmp':
+                                        continue
+                                    _, op, fl, fr_ = f
+                                    sl, sr = show(strip(fl)), show(strip(fr_))
+                                    if (op in ('<=', '<') and sl == show(r) and sr == show(l)) or (op in ('>=', '>') and sl == show(l) and sr == show(r)):
+                                        ok = 'dominated by %s' % fact_str(f)
+                                break
+                    if ok is None:
+                        # outside the rule unless an operand comes from the file inside this function
+                        def from_file(e, depth=0):
+                            for y in walk(e):
+                                c2 = short(callee_name(y)) if 'callee' in y else None
+                                if c2 in WIDE_READERS or c2 in ('xmi2mid_read4', 'xmi2mid_read4le', 'xmi2mid_read2', 'read', 'fileSize', 'tell') or y.get('k') == 'vlq':
+                                    return True
+                                if depth < 3 and y.get('k') == 'DeclRefExpr' and not y.get('parm') and y.get('id') in defs:
+                                    if any(from_file(d, depth + 1) for d in defs[y['id']] if d is not e):
+                                        return True
+                            return False
+                        if not (from_file(l) or from_file(r)):
+                            continue
+                    n += 1
+                    out.append(Obl('C01.R3b', fn.name, '%s(%s) <- %s' % (cn, show(size)[:30], show(sub)[:50]), st['loc'], 'discharged' if ok else 'finding',
+                                   why=ok or 'the size is the unsigned difference %s of file-derived values with no comparison of the operands before it: when %s exceeds %s the '
+                                   'difference wraps to ~2^64 and the allocation throws length_error/bad_alloc through the C API' % (show(sub)[:60], show(r)[:30], show(l)[:30])))
+    if n < 2 and facts.view not in ('noSEQ',):
+        raise build.AnalysisBroken('C01.R3b: fewer than 2 difference-sized allocations found (expected the rest-of-file sizes of the CMF/IMF/RSXX loaders)')
+    return out
+
+
 def clamped_to_remaining(fn, b, st, size):
     """`if (S > remaining) S = remaining;` on every path before the use, S the size operand, remaining = end - cursor or fileSize - tell"""
     names = {show(y) for y in walk(size) if y.get('k') in ('DeclRefExpr', 'MemberExpr')}
@@ -816,6 +917,44 @@ def r6(facts):
     for l in loops:
         ok, why = antifreeze(fn, l)
         out.append(Obl('C01.R6', fn.name, 'event loop ' + show(l.get('cond'))[:60], '%s:%s' % (fn.file, l.get('ln')), 'discharged' if ok else 'finding', why=why))
+    # when the limit is hit the caller must get a positive delay back, whatever the step was: the branch under `counter <= 0`
+    # first drops a negative wait (adding the one-second penalty to -1e300 changes nothing: Tick would return 0 for ever and
+    # the audio loop of opn2_play, which repeats Tick while it returns 0, would never end)
+    def fconst(e):
+        e = strip(e)
+        while e is not None and (e.get('k') or '').endswith('CastExpr'):
+            e = strip(e.get('e'))
+        if e is None:
+            return None
+        return e.get('fc') if e.get('fc') is not None else const_of(e)
+    limit_ifs = []
+    def rec3(t):
+        if isinstance(t, dict):
+            if t.get('k') == 'IfStmt' and t.get('cond') is not None:
+                for f in literals(t['cond'], True):
+                    n_ = cmp_norm(f) if f[0] == 'cmp' else None
+                    if n_ and n_[0] in ('<=', '<') and n_[2] in (0, 1) and strip(n_[1]).get('k') == 'DeclRefExpr' and not strip(n_[1]).get('parm') and \
+                            (strip(n_[1]).get('t') or {}).get('s') == 'int':
+                        limit_ifs.append(t)
+            for k2 in ('body', 'then', 'else', 'sub', 'init'):
+                v = t.get(k2)
+                if isinstance(v, (dict, list)):
+                    rec3(v)
+        elif isinstance(t, list):
+            for y in t:
+                rec3(y)
+    rec3(fn.tree)
+    if not limit_ifs:
+        raise build.AnalysisBroken('C01.R6: the `counter <= 0` branch of Tick not found')
+    for li in limit_ifs:
+        ok = False
+        for x in walk(li.get('then')):
+            ap = assign_parts(x)
+            if ap and ap[2] == '=' and mentions(ap[0], mem('wait')) and (fconst(ap[1]) is not None and fconst(ap[1]) >= 0):
+                ok = True
+        out.append(Obl('C01.R6', fn.name, 'limit reached: owed time dropped', '%s:%s' % (fn.file, li.get('ln')), 'discharged' if ok else 'finding',
+                       why='wait is set to a non-negative constant before the penalty is added: Tick returns a positive delay' if ok else
+                       'under `%s` the penalty is added to a wait that may be hugely negative (opn2_tickEvents(dev, 1e300, ..), a huge tempo multiplier): Tick keeps returning 0 and the audio loop of opn2_play never ends' % show(li['cond'])[:40]))
     # seek(): the same loop shape with the counter test commented out (F11) — recorded, terminates because looping is disabled while seeking
     sk = seqfn(facts, 'seek', required=False)
     if sk is not None:
